@@ -3390,6 +3390,10 @@ class ToDimension(todict.PrintNode):
             # size(in)
             argname = node.args[0].name
             #            arg = self.func.ast.find_arg_by_name(argname)
+            if argname not in self.fcn._fmtargs:
+                raise RuntimeError(
+                    "size({0}): '{0}' is not an argument of {1} at line {2}"
+                    .format(argname, self.fcn.ast.name, self.fcn.linenumber))
             fmt = self.fcn._fmtargs[argname]["fmtpy"]
             if self.fcn.options.PY_array_arg == "numpy":
                 return wformat("PyArray_SIZE({py_var})", fmt)
